@@ -14,6 +14,8 @@ def expected_outcomes(kind, n, k):
         return comb(n, min(k, n))
     if kind in ("choose", "single", "index"):
         return n
+    if kind in ("shufpos", "pshufpos"):
+        return 4
     raise ValueError(kind)
 
 
